@@ -32,6 +32,15 @@ STALL = 20.0
 core.RLIMIT_AS_BYTES[0] = 1 << 30
 
 PROGRAMS = [
+    # an instruction of every arity with pairwise distinct operand registers (unary, binary, ternary, quaternary, variadic):
+    # vertical / horizontal concatenation of 2, 3, 4, 5 operands; stepped ranges; calls
+    "x := [1 2; 3 4; 5 6; 7 8]",
+    "x := [1; 2; 3; 4]",
+    "a := [1 2]\nb := [3 4]\nc := [5 6]\nd := [7 8]\nx := [a; b; c; d]",
+    "a := [1; 2]\nb := [3; 4]\nc := [5; 6]\nd := [7; 8]\nx := [a b c d]",
+    "a := [1 2]\nb := [3 4]\nc := [5 6]\nx := [a; b; c]\ny := [a; b]\nz := [a; b; c; a; b]",
+    "a := 1\ns := 2\nb := 9\nr := a..s..=b\nq := -r\nt := r'",
+    "x := [true false; false true; true true; false false]\ny := [\"a\" \"b\"; \"c\" \"d\"; \"e\" \"f\"; \"g\" \"h\"]",
     # strings nested in containers, with multi-byte characters (their encoder is not the scalar-string one)
     'x := ["héllo" "wörld"]',
     'x := ["温度" "ok" "Δt"; "a" "ß" "😀"]',
